@@ -77,28 +77,28 @@ Section Interleave.
   Lemma ops_of_app i g h : ops_of i (g ++ h) = ops_of i g ++ ops_of i h.
   Proof. unfold ops_of. now rewrite filter_app, map_app. Qed.
 
-  Lemma inv_move prog s g i : Inv prog s g -> exists g', Inv prog (move s i) g' /\ exists h, g' = g ++ h.
+  Lemma inv_move prog s g i : Inv prog s g -> exists g', Inv prog (move s i) g' /\ exists h, g' = g ++ h /\ length h <= 1.
   Proof.
     intros (Hlen & Hprog & Hh). unfold move. destruct (holder s) as [[j rest]|] eqn:Eh.
     - destruct (Nat.eqb i j) eqn:Eij.
       + destruct Hh as (pre & op & done & Hg & Hop & Htr). destruct rest as [|a rest'].
-        * exists g. split; [|exists []; now rewrite app_nil_r]. split; [exact Hlen|]. split; [exact Hprog|]. cbn [holder trace].
+        * exists g. split; [|exists []; split; [now rewrite app_nil_r|cbn; lia]]. split; [exact Hlen|]. split; [exact Hprog|]. cbn [holder trace].
           rewrite Htr, Hg, map_app, concat_app. cbn [map snd concat]. rewrite Hop, !app_nil_r. reflexivity.
-        * exists g. split; [|exists []; now rewrite app_nil_r]. split; [exact Hlen|]. split; [exact Hprog|]. cbn [holder trace].
+        * exists g. split; [|exists []; split; [now rewrite app_nil_r|cbn; lia]]. split; [exact Hlen|]. split; [exact Hprog|]. cbn [holder trace].
           exists pre, op, (done ++ [a]). split; [exact Hg|]. split; [rewrite Hop, <- app_assoc; reflexivity|].
           rewrite Htr, <- app_assoc. reflexivity.
-      + exists g. split; [|exists []; now rewrite app_nil_r]. split; [exact Hlen|]. split; [exact Hprog|]. now rewrite Eh.
+      + exists g. split; [|exists []; split; [now rewrite app_nil_r|cbn; lia]]. split; [exact Hlen|]. split; [exact Hprog|]. now rewrite Eh.
     - destruct (nth_error (todo s) i) as [[|op ops]|] eqn:En.
-      + exists g. split; [|exists []; now rewrite app_nil_r]. split; [exact Hlen|]. split; [exact Hprog|]. now rewrite Eh.
+      + exists g. split; [|exists []; split; [now rewrite app_nil_r|cbn; lia]]. split; [exact Hlen|]. split; [exact Hprog|]. now rewrite Eh.
       + destruct (nth_error_nth [] _ _ _ En) as [Hn Hi].
-        exists (g ++ [(i, op)]). split; [|exists [(i, op)]; reflexivity]. split; [cbn [todo]; now rewrite set_nth_length|]. split.
+        exists (g ++ [(i, op)]). split; [|exists [(i, op)]; split; [reflexivity|cbn; lia]]. split; [cbn [todo]; now rewrite set_nth_length|]. split.
         * intros k. cbn [todo]. rewrite ops_of_app. destruct (Nat.eq_dec i k) as [<-|Hne].
           -- rewrite nth_set_nth_eq by exact Hi. unfold ops_of at 2. cbn [filter fst]. rewrite Nat.eqb_refl. cbn [map snd].
              rewrite <- app_assoc. cbn [app]. rewrite <- Hn. apply Hprog.
           -- rewrite nth_set_nth_neq by exact Hne. unfold ops_of at 2. cbn [filter fst].
              replace (Nat.eqb i k) with false by (symmetry; now apply Nat.eqb_neq). cbn [map]. rewrite app_nil_r. apply Hprog.
         * cbn [holder trace]. exists g, op, []. split; [reflexivity|]. split; [reflexivity|]. now rewrite app_nil_r.
-      + exists g. split; [|exists []; now rewrite app_nil_r]. split; [exact Hlen|]. split; [exact Hprog|]. now rewrite Eh.
+      + exists g. split; [|exists []; split; [now rewrite app_nil_r|cbn; lia]]. split; [exact Hlen|]. split; [exact Hprog|]. now rewrite Eh.
   Qed.
 
   Lemma inv_start prog : Inv prog (start prog) [].
@@ -108,6 +108,15 @@ Section Interleave.
   Proof.
     induction schedule as [|i schedule IH]; intros s g H; [exists g; exact H|].
     destruct (inv_move prog s g i H) as (g' & H' & _). exact (IH _ g' H').
+  Qed.
+
+  (* at most one operation is granted per scheduling step *)
+  Theorem inv_run_bounded prog : forall schedule s g, Inv prog s g ->
+    exists g', Inv prog (run s schedule) g' /\ length g' <= length g + length schedule.
+  Proof.
+    induction schedule as [|i schedule IH]; intros s g H; [exists g; split; [exact H|cbn; lia]|].
+    destruct (inv_move prog s g i H) as (g' & H' & h & -> & Hh). destruct (IH _ _ H') as (g'' & H'' & Hl).
+    exists g''. split; [exact H''|]. rewrite app_length in Hl. cbn [length]. lia.
   Qed.
 
   (* for every schedule: the steps performed are whole operations, one after the other, then a prefix of the
